@@ -451,7 +451,8 @@ def _tree(vars_, depth=4):
 
 
 PASSED_SPOT = ("spot", "spot+strike", "moneyness", "log_moneyness")
-PRICER_SPOT = ("spot", "moneyness", "log_moneyness")
+# a user pricer may consume several of the spot-like parameters at once (autogreek provides all of them consistently)
+PRICER_SPOT = ("spot", "moneyness", "log_moneyness", "spot+log_moneyness", "spot+moneyness")
 VOLS = ("volatility", "variance")
 
 
@@ -495,7 +496,7 @@ def make_pricer(tree, vars_, pricer_spot, pricer_strike, pricer_vol, K):
     """A Python function with an explicit signature (autogreek filters its kwargs by inspect.signature)."""
     names = []
     if "S" in vars_:
-        names.append(pricer_spot)
+        names.extend(pricer_spot.split("+"))
         if pricer_strike:
             names.append("strike")
     if "v" in vars_:
@@ -507,8 +508,13 @@ def make_pricer(tree, vars_, pricer_spot, pricer_strike, pricer_vol, K):
         S = v = t = None
         if "S" in vars_:
             k = d["strike"] if pricer_strike else K
-            x = d[pricer_spot]
-            S = x if pricer_spot == "spot" else (x * k if pricer_spot == "moneyness" else x.exp() * k)
+            if "+" in pricer_spot:  # geometric mean of the two consistent views of the spot
+                other = pricer_spot.split("+")[1]
+                S2 = d[other] * k if other == "moneyness" else d[other].exp() * k
+                S = (d["spot"] * S2).sqrt()
+            else:
+                x = d[pricer_spot]
+                S = x if pricer_spot == "spot" else (x * k if pricer_spot == "moneyness" else x.exp() * k)
         if "v" in vars_:
             v = d[pricer_vol] if pricer_vol == "volatility" else d[pricer_vol].sqrt()
         if "t" in vars_:
@@ -569,7 +575,8 @@ def check_autogreek(case, ctx):
     def own_spot_params():  # what the pricer itself consumes (for Greeks that do not touch spot)
         if "S" not in vars_:
             return {}
-        kw = {case["pricer_spot"]: tens({"spot": S, "moneyness": S / K, "log_moneyness": lm}[case["pricer_spot"]])}
+        views = {"spot": S, "moneyness": S / K, "log_moneyness": lm}
+        kw = {name: tens(views[name]) for name in case["pricer_spot"].split("+")}
         if case["pricer_strike"]:
             kw["strike"] = strike_value()
         return kw
